@@ -865,8 +865,9 @@ def gen_cases(tier, rng):
         for ms, gs in sorted(byms.items()):
             cases.append(dict(kind="batch", sub="batch%d" % n, graphs=gs, distinct_classes=True))
     # symmetric families
+    fam = []
     for nm, g in _families():
-        cases.append(_graph_case("family", g, rng, nalts=3 if tier == "quick" else 6, nothers=1, name="family/" + nm))
+        fam.append(_graph_case("family", g, rng, nalts=3 if tier == "quick" else 6, nothers=1, name="family/" + nm))
     # seeded random graphs
     nrand = 250 if tier == "quick" else 2500
     for _ in range(nrand):
@@ -881,6 +882,11 @@ def gen_cases(tier, rng):
         gs = [g] + [_reinsert(_renumber(g, rng, "keep"), rng) for _ in range(2)] + [_mutant(g, rng) for _ in range(4)]
         cases.append(dict(kind="batch", sub="batch-random", graphs=gs, distinct_classes=False))
     cases += _rule_cases(rng, 30 if tier == "quick" else 66)
+    # the symmetric families are the expensive cases (cube, Petersen: hundreds of leaves and _refine calls each):
+    # spread them over the shards instead of putting them into one
+    step = max(1, len(cases) // (len(fam) + 1))
+    for k, c in enumerate(fam):
+        cases.insert(min(len(cases), (k + 1) * step + k), c)
     return cases
 
 
